@@ -470,6 +470,11 @@ func genC15(seed uint64, part string) *Scenario {
 			}
 		} else {
 			sc.Bars[bi].FailAt = k
+			if sc.Mode == "auto" && r.Chance(1, 4) {
+				// the fault first strikes in a frame rendered on the way out
+				sc.Bars[bi].FailAt = failLate
+				sc.Bars[bi].Rm = false
+			}
 		}
 		// the failing bar is part of fewer synchronised columns than the others
 		if r.Bool() {
